@@ -333,6 +333,8 @@ def run(ctx):
                 return None
             if e[0] == "field" and e[1][0] == "downcast" and e[1][2] == "Some":
                 return arg_source(e[1][1], depth + 1)
+            if e[0] == "payload" and len(e) > 2:       # case normal form: the Some payload of a source that is no combinator
+                return arg_source(e[2], depth + 1)
             if e[0] == "agg" and e[1].get("variant") == "Some" and e[2]:
                 return arg_source(e[2][0], depth + 1)
             if e[0] == "call" and e[1]:
@@ -400,7 +402,23 @@ def run(ctx):
                 continue
             else:
                 other.append(lf)
-        hidden = [lf for lf in other if expr_mentions(lf, by_helper)]
+        def from_helper(e):
+            """e is — through references, payload projections and conversions to an owned String — what a function of the
+            binary returns that this view does not show inlined."""
+            for _ in range(12):
+                e = strip_refs(e)
+                if e[0] == "field":
+                    e = e[1]
+                elif e[0] == "downcast":
+                    e = e[1]
+                elif e[0] == "payload" and len(e) > 2:
+                    e = e[2]
+                elif e[0] == "call" and e[1] and e[2] and (OWNED.search(e[1]["path"]) or e[1]["path"] in PAYLOAD_CALLS):
+                    e = e[2][0]
+                else:
+                    break
+            return by_helper(e)
+        hidden = [lf for lf in other if from_helper(lf)]
         if hidden:
             # a value that comes out of a function of the binary which this view does not show inlined is not read (it
             # is read — either way — on the view with that function inlined), whatever else the text can be
@@ -506,8 +524,6 @@ def run(ctx):
             ctx.unread("K3.selector", "the data text", "the ways through main could not be enumerated and no edge of main tests the data argument", where=m.where(), fn=m.key)
             return
         ctx.check(has_selector, "K3.selector", "main decides on the data argument being absent or \"-\"", "no test of the data argument against the constant \"-\" (or for absence) found", where=m.where(), fn=m.key, nontrivial=True)
-        if not has_selector:
-            return
 
         def reachable_without(edges, target):
             seen, st = set(), [0]
@@ -528,6 +544,10 @@ def run(ctx):
                 ctx.unread(clause, "the data text", "the ways through main to %s could not be enumerated, and the edges of main alone do not separate them" % m.where(block), where=m.where(block), fn=m.key)
             else:
                 ctx.check(v, clause, good, bad_, where=m.where(block), fn=m.key, nontrivial=True)
+        if not has_selector:
+            if pf0:      # the ways through main were read: say what they show about the read
+                decide("K3.stdin-only-on-dash", False, rbi, {"absent", "dash"}, "stdin is read only when the data argument is \"-\" or absent", "stdin is read on a way through main that never established that the data argument is absent or \"-\"")
+            return
         decide("K3.stdin-only-on-dash", bool(stdin_edges) and not reachable_without(stdin_edges, rbi), rbi, {"absent", "dash"},
                "stdin is read only when the data argument is \"-\" or absent", "stdin can be read on a path that never established that the data argument is absent or \"-\"")
         for lf, _src, pos in arg_leaves:
